@@ -69,6 +69,8 @@ fn parse_unit<R: Read>(scanner: &mut Scanner<R>) -> Result<String, Error> {
     let mut unit = Vec::new();
 
     while !scanner.is_eof && is_unit_char(scanner) {
+        #[cfg(feature = "verif-hooks")]
+        crate::haystack::verif_hooks::tick(crate::haystack::verif_hooks::SITE_LOOP);
         unit.push(scanner.cur);
 
         scanner.advance()?
@@ -94,6 +96,8 @@ fn parse_decimal_digits<R: Read>(scanner: &mut Scanner<R>) -> Result<String, Err
     let mut id = Vec::new();
 
     while !scanner.is_eof && (scanner.is_digit() || scanner.is_any_of("_.-")) {
+        #[cfg(feature = "verif-hooks")]
+        crate::haystack::verif_hooks::tick(crate::haystack::verif_hooks::SITE_LOOP);
         if scanner.cur != b'_' {
             id.push(scanner.cur);
         }
